@@ -57,7 +57,7 @@ let events_of_token tok : ev list =
   match String.sub tok 0 2 with
   | "st" -> [EStart w]
   | "sd" -> [ESend w]
-  | "dl" -> [EDeliver (w, nat_of_int (arg tok))]
+  | "dl" | "dg" -> [EDeliver (w, nat_of_int (arg tok))]   (* dg: with statuses of groups this node does not have *)
   | "dr" -> [EDrop (w, nat_of_int (arg tok))]
   | "pl" | "pt" -> [EPeerLost w]
   | "dn" | "de" -> [EIf (w, nat_of_int (arg tok), true)]
@@ -121,11 +121,13 @@ let () =
                    | _ -> ())
                 | _ -> ())
              | _ -> ()) in
+        (* IX:<n> only selects the sw_if_index values used by the harness: invisible to the model *)
+        let ops = (match ops with ix :: r when String.length ix > 3 && String.sub ix 0 3 = "IX:" -> r | _ -> ops) in
         (match ops with
          | g2 :: ops when String.length g2 > 3 && String.sub g2 0 3 = "G2:" ->
            (* two groups: two instances of the model *)
            let p = Array.of_list (String.split_on_char ',' (String.sub g2 3 (String.length g2 - 3))) in
-           if Array.length p <> 8 then failwith "bad G2";
+           if Array.length p <> 8 && Array.length p <> 9 then failwith "bad G2";   (* 9th field: name of the group *)
            let cs2 = (mkc (Hashtbl.create 1) ia p.(0) p.(1) p.(2) p.(3), mkc (Hashtbl.create 1) ib p.(4) p.(5) p.(6) p.(7)) in
            let s1 = ref (init_pair cs) and s2 = ref (init_pair cs2) in
            let t1 = ref [] and t2 = ref [] in
@@ -151,7 +153,7 @@ let () =
              (match String.sub tok 0 2 with
               | "d1" -> both (EDeliver (w, nat_of_int a)) (ETouch (w, nat_of_int a))
               | "d2" -> both (ETouch (w, nat_of_int a)) (EDeliver (w, nat_of_int a))
-              | "dl" -> both (EDeliver (w, nat_of_int a)) (EDeliver (w, nat_of_int a))
+              | "dl" | "dg" -> both (EDeliver (w, nat_of_int a)) (EDeliver (w, nat_of_int a))
               | "dn" | "de" | "up" ->
                 let d = String.sub tok 0 2 <> "up" in
                 if a < 100 then e1 (EIf (w, nat_of_int a, d)) else e2 (EIf (w, nat_of_int (a - 100), d))
